@@ -364,6 +364,14 @@ def checked_in_any_order(ctx, f, args, case, name):
         pass
     second = f(*args, bounds=True)
     ctx.count('checked_after_unchecked')
+    # the flag given by position (the user guide's signatures: cowat(t, p, bounds), sat(t, bounds), tsat(p, bounds), ...)
+    # asks for the same thing as the flag given by name
+    third = f(*(tuple(args) + (True,)))
+    ctx.count('range_checks_with_positional_flag')
+    c3 = None if third is None else (tuple(third) if isinstance(third, (tuple, list)) else third)
+    b3 = None if second is None else (tuple(second) if isinstance(second, (tuple, list)) else second)
+    if c3 != b3 and not (c3 != c3 and b3 != b3):
+        ctx.violation('bounds:%s:positional-flag-differs' % name, '%s%r: range checking asked for by position gives %r, by name %r' % (name, tuple(args), third, second), case)
     a = None if first is None else (tuple(first) if isinstance(first, (tuple, list)) else first)
     b = None if second is None else (tuple(second) if isinstance(second, (tuple, list)) else second)
     if a != b and not (a != a and b != b):
